@@ -12,6 +12,11 @@ Tie W2, EXHAUSTIVE over cut points:
       choose and arbitrary recorded dimension counts for empty indexes (C12_torn_any_writer); the file is
       identified with the specification's `layout_d d0 iw rw` by a checksum computed on both sides
       (chk_c12_layout).
+  (t) REAL torn writes, for a sample of the dicts: the real save runs in a forked child under
+      RLIMIT_FSIZE = k for every k < len(file) - the write that crosses byte k fails with EFBIG (a full disk)
+      or the child is killed by SIGXFSZ (a killed process), alternately; whatever is left on disk is loaded by
+      the real IndxIO.load and must be refused; it is also checked to BE the first k bytes of the complete
+      file, which is the assumption under which `firstn k` models a torn write.
   The bytes of a file are sent to Coq once per case; Coq iterates over the cut points.
 Oracle: the property stated directly - load(F[:k]) raised (any exception type).  No model involved.
 The OS fact relied on (mmap refuses a length beyond the end of a regular file) is what this run observes.
@@ -49,6 +54,42 @@ def cut_codes(impl, data):
     return codes, accepted
 
 
+def torn_write(impl, entries, common, k, kill):
+    """Run the real save in a forked child that cannot write beyond byte k; return what is left on disk."""
+    import resource
+    import signal
+    d = impl.to_dict(entries)
+    if os.path.exists(impl.path):
+        os.unlink(impl.path)
+    pid = os.fork()
+    if pid == 0:
+        try:
+            signal.signal(signal.SIGXFSZ, signal.SIG_DFL if kill else signal.SIG_IGN)
+            resource.setrlimit(resource.RLIMIT_FSIZE, (k, k))
+            with open(impl.path, "wb") as f:
+                impl.IndxIO.save(f, d, common, impl.u32)
+            os._exit(0)
+        except BaseException:  # noqa
+            os._exit(3)
+        finally:
+            os._exit(4)
+    _, status = os.waitpid(pid, 0)
+    with open(impl.path, "rb") as f:
+        return f.read(), status
+
+
+def load_left(impl):
+    """Load whatever is in impl.path: stage class of the refusal, or (0, repr of what was returned)."""
+    with open(impl.path, "rb") as f:
+        try:
+            entries, common, dt = impl.IndxIO.load(f)
+        except Exception as e:  # noqa
+            return c10.classify(e), None
+        shown = repr((list(entries.keys()), int(common), str(dt)))[:400]
+        del entries
+        return 0, shown
+
+
 def reachable(impl, rng, n):
     """(entries, common) of indexes the library builds itself."""
     out = []
@@ -80,7 +121,7 @@ def run(ctx):
     c10.build_check(ctx)
     impl = c10.Impl(ctx)
     quick = ctx.tier == "quick"
-    n_gen, n_idx, n_other = (600, 60, 2) if quick else (8000, 600, 3)
+    n_gen, n_idx, n_other, n_torn = (600, 60, 2, 12) if quick else (8000, 600, 3, 150)
 
     bad = []
     lits_s, recs_s, lits_w, recs_w = [], [], [], []
@@ -129,6 +170,40 @@ def run(ctx):
             lits_w.append("(%s, %s, %d, %d, %d, %s, %s)" % (c10.lit_entries(entries), core.zlit(common), d0, iw, rw, core.zlit(c10.checksum(file)), core.zlist(codes)))
             recs_w.append(dict(rec, iw=iw, rw=rw, d0=d0, file_len=len(file)))
 
+    # (t) real torn writes
+    torn_stats = {"files": 0, "torn_writes": 0, "left_is_prefix_of_complete_file": 0, "left_length_equals_limit": 0, "save_returned_normally_on_torn_file": 0,
+                  "child_killed_by_SIGXFSZ": 0, "child_save_raised": 0}
+    not_prefix = []
+    step = max(1, len(inputs) // max(1, n_torn))
+    for entries, common, src in inputs[::step][:n_torn]:
+        try:
+            data = impl.save(entries, common)
+        except Exception:  # noqa
+            continue
+        codes, _acc = cut_codes(impl, data)
+        torn_stats["files"] += 1
+        for k in range(len(data)):
+            kill = bool((k + torn_stats["files"]) % 2)
+            left, status = torn_write(impl, entries, common, k, kill)
+            code, shown = load_left(impl)
+            n_loads += 1
+            torn_stats["torn_writes"] += 1
+            torn_stats["left_length_equals_limit"] += len(left) == k
+            torn_stats["child_killed_by_SIGXFSZ"] += os.WIFSIGNALED(status)
+            torn_stats["child_save_raised"] += os.WIFEXITED(status) and os.WEXITSTATUS(status) == 3
+            torn_stats["save_returned_normally_on_torn_file"] += os.WIFEXITED(status) and os.WEXITSTATUS(status) == 0
+            rec = {"entries": [[list(kk), v] for kk, v in entries], "common": common, "from": src, "stream": "t", "write_limit": k, "left_len": len(left)}
+            if len(left) < len(data) and code == 0:
+                bad.append(dict(rec, cut=len(left), file_len=len(data), file_hex=data.hex()[:4000], prefix_hex=left.hex()[:4000], returned=shown,
+                                what="save was cut short by a %d-byte file-size limit (%s); load of the %d bytes left returned %s"
+                                     % (k, "child killed by SIGXFSZ" if kill else "EFBIG", len(left), shown[:160])))
+            if data.startswith(left):
+                torn_stats["left_is_prefix_of_complete_file"] += 1
+                if len(left) < len(data) and code != codes[len(left)] and code != 0:
+                    not_prefix.append(dict(rec, what="refused at stage %s, but the truncated complete file at stage %s" % (code, codes[len(left)])))
+            else:
+                not_prefix.append(dict(rec, what="what a torn write left is not a prefix of the complete file", left_hex=left.hex()[:2000], file_hex=data.hex()[:2000]))
+
     rs = core.run_cases("c12s", c10.PRELUDE, lits_s, "entries_t * Z * list Z * list Z", "chk_c12", "explain_c12", shard_size=40 if quick else 550)
     rw_ = core.run_cases("c12w", c10.PRELUDE, lits_w, "entries_t * Z * Z * Z * Z * Z * list Z", "chk_c12_layout", "explain_c12_layout", shard_size=80 if quick else 1600)
 
@@ -142,6 +217,7 @@ def run(ctx):
         "prefixes_loaded_for_real": n_loads, "longest_file_bytes": longest,
         "refusal_stage_histogram": dict(sorted(stage_hist.items())),
         "prefixes_accepted": len(bad),
+        "real_torn_writes_RLIMIT_FSIZE": torn_stats, "torn_write_model_mismatches": len(not_prefix),
         "model_disagreements": {"saver_files": len(rs.failing), "independent_writer_files": len(rw_.failing)},
         "coq_case_shards_failed": len(rs.errors) + len(rw_.errors),
         "tie": "W2 inside Coq: chk_c12 (real bytes = model save; for every k model load(firstn k) = LErr (torn_stage k) = observed stage class), "
@@ -152,8 +228,10 @@ def run(ctx):
         ctx.report("torn:prefix-accepted", "a torn file was loaded: " + bad[0]["what"],
                    {"failing_inputs": bad[:10], "count": len(bad), "files_with_an_accepted_prefix": len(set(r["file_hex"] for r in bad)),
                     "how": "file written for real, cut with os.truncate, loaded by the real IndxIO.load; the oracle is 'load raised' (no model involved)"})
-    elif rs.failing or rw_.failing or rs.errors or rw_.errors or not proof_ok:
+    elif rs.failing or rw_.failing or rs.errors or rw_.errors or not proof_ok or not_prefix:
         w = []
+        if not_prefix:
+            w.append("real torn writes (RLIMIT_FSIZE) are not modelled by `firstn k` of the complete file in %d cases: %s" % (len(not_prefix), not_prefix[0]["what"]))
         if not proof_ok:
             w.append("proof obligation no longer checks: Properties/C12.v (%s)" % ((pr["log"] or "")[-300:] if not pr["ok"] else "assumptions: %s" % pr["assumptions"]))
         if rs.failing or rw_.failing:
@@ -166,7 +244,7 @@ def run(ctx):
             "broken_proof_log": (pr["log"] or "")[-2500:] if not pr["ok"] else "",
             "disagreeing_cases": [dict(recs_s[i], stream="s") for i in rs.failing[:6] if i < len(recs_s)]
                                  + [dict(recs_w[i], stream="w") for i in rw_.failing[:6] if i < len(recs_w)],
-            "explain": "\n".join(x for x in (rs.explain, rw_.explain) if x)[-3000:],
+            "explain": "\n".join(x for x in (rs.explain, rw_.explain) if x)[-3000:], "torn_write_model_mismatches": not_prefix[:6],
             "search": "every one of the %d prefixes loaded for real was refused (oracle: load raised)" % n_loads}, found_input=False)
 
 
@@ -197,6 +275,16 @@ def replay(ctx, path):
         print("entries=%r common=%r stream=%s: %d bytes, prefixes accepted at k=%s" % (c["entries"], c["common"], c.get("stream"), len(data), [k for k, _ in accepted]))
         for k, shown in accepted:
             still.append(dict(c, cut=k, file_len=len(data), returned=shown, what="load of the first %d of %d bytes returned %s" % (k, len(data), shown[:160])))
+        if c.get("stream") == "t":
+            # real torn writes: the save itself is cut short by a file-size limit, at every byte
+            for k in range(len(data)):
+                left, _status = torn_write(impl, entries, c["common"], k, bool(k % 2))
+                code, shown = load_left(impl)
+                n += 1
+                if len(left) < len(data) and code == 0:
+                    print("  write limit %d: %d bytes left, load returned %s" % (k, len(left), shown[:120]))
+                    still.append(dict(c, cut=len(left), file_len=len(data), returned=shown,
+                                      what="save cut short by a %d-byte file-size limit; load of the %d bytes left returned %s" % (k, len(left), shown[:160])))
     ctx.evaluations = n
     ctx.nontrivial.update(range(max(2, n)))
     if still:
